@@ -29,6 +29,8 @@ def gen_case(rnd):
     for i in range(nb):
         bid = rnd.choice(["aw-watcher-window_host", "bücket-ünï", "b with space", "x"]) + str(i)
         n = rnd.choice([0, 1, 2, 3, 6, 6, 130 if rnd.random() < 0.15 else 4])
+        if rnd.random() < 0.04:
+            n = rnd.choice([1001, 2500])
         buckets.append({"id": bid, "type": rnd.choice(["currentwindow", "afk"]), "client": "cl", "hostname": rnd.choice(["h1", "hö"]),
                         "name": rnd.choice([None, "nm"]), "data": rnd.choice([None, {"k": [1, {"z": "ü"}]}, {"a": "b"}]),
                         "n": n, "delete": sorted(rnd.sample(range(n), min(n, rnd.choice([0, 0, 1, 2])))), "dups": rnd.random() < 0.3})
@@ -73,7 +75,13 @@ def _child(case, seed, root):
                 kw["data"] = copy.deepcopy(b["data"])
             bk = ds.create_bucket(b["id"], b["type"], b["client"], b["hostname"], **kw)
             evs = []
-            for i in range(b["n"]):
+            if b["n"] > 1000:
+                # back-to-back one-second events with a twin sharing every 500th timestamp
+                from datetime import datetime, timedelta, timezone
+                t0 = datetime(2021, 3, 4, 5, 6, 7, tzinfo=timezone.utc)
+                for i in range(b["n"]):
+                    evs.append(Event(timestamp=t0 + timedelta(seconds=i - (1 if i % 500 == 499 else 0)), duration=1, data={"i": i % 7}))
+            for i in range(b["n"] if b["n"] <= 1000 else 0):
                 ts, dur, data = own.rand_triple(rnd)
                 evs.append(Event(timestamp=ts, duration=dur, data=data))
             if b["dups"] and evs:
